@@ -762,13 +762,13 @@ def r7_record_once(report, repo, rule='C05-R7'):
 
 
 def run(report, repo):
-  r1_prediagnosis(report, repo)
-  r2_postdiagnosis(report, repo)
-  r3_repeat(report, repo)
-  r4_run_if(report, repo)
-  r5_thread_proc(report, repo)
-  r6_diagnosers(report, repo)
-  r6b_diagnoses_reach_record(report, repo)
-  r7_record_once(report, repo)
+  report.guard(r1_prediagnosis, report, repo)
+  report.guard(r2_postdiagnosis, report, repo)
+  report.guard(r3_repeat, report, repo)
+  report.guard(r4_run_if, report, repo)
+  report.guard(r5_thread_proc, report, repo)
+  report.guard(r6_diagnosers, report, repo)
+  report.guard(r6b_diagnoses_reach_record, report, repo)
+  report.guard(r7_record_once, report, repo)
   from sa.rules import c01  # pylint: disable=g-import-not-at-top
-  c01.r7_last_record(report, repo, rule='C05-R8')
+  report.guard(c01.r7_last_record, report, repo, rule='C05-R8')
